@@ -6,7 +6,8 @@ LEVEL = 'exploration'
 SHARDS = {'quick': 2, 'thorough': 16}
 BUDGET = {'quick': 70, 'thorough': 600}
 TECHNIQUE = 'runtime monitoring: post-condition monitor on the real forwards() (== embed o mask via an independent route) plus a client-boundary monitor that really calls generated, declared wrappers on every call shape'
-RULE = ('(a) every forwards() call of the algebra drivers and of the declared wrappers is compared, in parameters and provenance, '
+RULE = ('(also: declared chains decided by the INSTANCE -- one wrapper class nested in itself as delegating objects and as decorator objects, forwards_to_super / apply_forwards_to_super over a parent that forwards to a per-instance callable, several instances of one class inspected in seeded orders and twice each -- every call shape executed) '
+        '(a) every forwards() call of the algebra drivers and of the declared wrappers is compared, in parameters and provenance, '
         'with embed(outer, mask(inner, ...)) computed through the original functions; (b) seeded wrappers whose body is generated '
         'from the declaration (n leading constants, own or foreign star arguments, explicit names, partial) are decorated with '
         'forwards_to_function (attribute / emulate=True / emulate=False), forwards_to_method (plain / emulate / dotted attribute), '
